@@ -153,6 +153,12 @@ impl Layer for InviteLayer {
 }
 
 impl InviteLayer {
+    /// verification hook: number of pending-cancel entries
+    #[cfg(feature = "ezk-verif")]
+    pub fn verif_counts(&self) -> usize {
+        self.cancellables.lock().len()
+    }
+
     async fn handle_cancel(
         &self,
         endpoint: &Endpoint,
